@@ -537,3 +537,17 @@ package value
 //@   ensures r1 == nil ==> okElem(r0)
 //@   ensures vmFrame()
 //@   ensures [balanced] r1 == nil && theVM != nil ==> theVM.csCount == old(theVM.csCount)
+
+//@ method (*Bool).String
+//@   modifies nothing
+//@ method (*Null).String
+//@   modifies nothing
+//@ func ThrowException
+//@   modifies nothing
+//@   ensures result != nil && fresh(result) && result.SigType == zerr.SigTypeException
+
+// the default constructor returns the instance it was given (Construct always passes a fresh object)
+//@ closure NewClassModel$1
+//@   assumes okElem(instance)
+//@   modifies nothing
+//@   ensures r0 == instance && r1 == nil
